@@ -195,6 +195,20 @@ def build(spec: dict[str, Any], vset: int, variant: dict[str, Any]) -> tuple[Any
             g = reflect.rebuild(g, fn3)
             if used[0]:
                 variant["aliased"] = True
+        # ... and a wrapper over a VIEW with the same address, shape and dtype but other
+        # strides (every element reads data[0,...]): merging it with the base wrapper
+        # changes a value
+        big = [n for n in reflect.walk(g) if isinstance(n, pt.DataWrapper)
+               and isinstance(n.data, np.ndarray) and n.data.size > 1
+               and any(st != 0 for st in n.data.strides)]
+        if big:
+            v = big[0]
+            view = np.lib.stride_tricks.as_strided(v.data, shape=v.data.shape,
+                                                   strides=(0,) * v.data.ndim, writeable=False)
+            outs = dict(g._data)
+            outs["vf_view"] = pt.make_data_wrapper(view) + v
+            g = pt.make_dict_of_named_arrays(outs)
+            variant["view"] = True
     return g, env
 
 
@@ -268,7 +282,7 @@ def apply_and_check(names: list[str], g: Any, env: dict[str, Any], base: dict[st
         gv = got[k]
         if lowered:
             ok = gv.shape == want.shape and gv.dtype == want.dtype and \
-                compare.close_ulps(gv, want, 16.0, err=8.0 * spread[k])
+                compare.close_ulps(gv, want, 16.0, err=8.0 * spread.get(k, 0.0))
         else:
             ok = gv.dtype == want.dtype and compare.same_exact(gv, want)
         if not ok:
@@ -317,12 +331,12 @@ def apply_and_check(names: list[str], g: Any, env: dict[str, Any], base: dict[st
                 with np.errstate(all="ignore"):
                     w2 = want.astype(gv.dtype)
                 if gv.shape != w2.shape or not compare.close_ulps(gv, w2, 16.0,
-                                                                   err=8.0 * spread[k]):
+                                                                   err=8.0 * spread.get(k, 0.0)):
                     # C01's business unless the untransformed graph compiles to the right value
                     bp0 = ctarget.generate(pt.transform.deduplicate(g))
                     r0 = ctarget.run(ctarget.compile_program(bp0), bp0, env)
                     if r0.outputs[k].shape == w2.shape and compare.close_ulps(
-                            r0.outputs[k], w2, 16.0, err=8.0 * spread[k]):
+                            r0.outputs[k], w2, 16.0, err=8.0 * spread.get(k, 0.0)):
                         col.violation(f"C05:compiled-value-changed:{sig}",
                                       f"compiled {sig}(g) output {k} is wrong while compiled g "
                                       f"is right: {compare.describe_diff(gv, w2)}", wit)
@@ -395,10 +409,12 @@ def check_case(case: dict[str, Any], col: common.Collector) -> None:
         # the reference evaluator's reading of g must agree with the NumPy shadow
         okb = True
         for k, v in base.items():
+            if k.startswith("vf_"):
+                continue            # outputs the harness added: metamorphic oracle only
             with np.errstate(all="ignore"):
                 w = ref[k].astype(v.dtype) if k in ref else None
             if w is None or v.shape != w.shape or \
-                    not compare.close_ulps(v, w, 16.0, err=8.0 * spread[k]):
+                    not compare.close_ulps(v, w, 16.0, err=8.0 * spread.get(k, 0.0)):
                 okb = False
         if not okb:
             col.histo("skipped", "refeval-disagrees-with-shadow")
